@@ -108,6 +108,25 @@ def run(case):
             r, aux = grad_and_aux(lambda *a, **k: (f(*a, **k), aux_obj), pos)(*args, **kw)
             o["extra_ok"] = bool(isinstance(aux, dict) and set(aux) == {"tag", "n"} and not isbox(aux["tag"]) and not isbox(aux["n"])
                                  and onp.array_equal(aux["tag"], [1.0, 2.0, 3.0]) and aux["n"] == 3.5)
+        elif op == "jac_thru_aux":
+            inner = grad_and_aux(lambda *a, **k: (np.sum(f(*a, **k)), f(*a, **k)), pos)
+            r = jacobian(lambda *a, **k: inner(*a, **k)[1], pos)(*args, **kw)
+        elif op == "jvp_thru_aux":
+            inner = grad_and_aux(lambda *a, **k: (np.sum(f(*a, **k)), f(*a, **k)), pos)
+            r = make_jvp(lambda *a, **k: inner(*a, **k)[1], pos)(*args, **kw)(vin)[1]
+        elif op == "grad_thru_aux_and_grad":
+            inner = grad_and_aux(lambda *a, **k: (f(*a, **k), f(*a, **k)), pos)
+
+            def loss(*a, **k):
+                g_, aux_ = inner(*a, **k)
+                return np.sum(g_ * vin) + 2.0 * aux_
+            r = grad(loss, pos)(*args, **kw)
+        elif op == "jac_thru_value":
+            r = jacobian(lambda *a, **k: value_and_grad(f, pos)(*a, **k)[0], pos)(*args, **kw)
+        elif op == "jac_thru_vjp_primal":
+            r = jacobian(lambda *a, **k: make_vjp(f, pos)(*a, **k)[1], pos)(*args, **kw)
+        elif op == "jvp_thru_jvp_primal":
+            r = make_jvp(lambda *a, **k: make_jvp(f, pos)(*a, **k)(vin)[0], pos)(*args, **kw)(vin)[1]
         elif op == "grad_named":
             names = ["a0", "a1", "a2"][:npos]
             src = "def named(%s, scale=1.0):\n    return f(%s, scale=scale)\n" % (", ".join(names), ", ".join(names))
